@@ -68,7 +68,11 @@ reg("C18", "proof",
     "Caller's datasets untouched: " + "run_prepare lets only the listed machine fields share memory with the caller's datasets, "
     "and no callback (matching cost, aggregation, confidence, disparity, filter, refinement, validation, multiscale), step "
     "operation or image helper writes in place into what those fields hold -- frame obligations for 45 functions. "
-    "Repetition on one machine, other pipelines on other machines: bounded stand-in.",
+    "State outliving a call: a repository-wide finite data obligation (every function body of the package, re-read on every run) "
+    "shows that no function writes a module-level or class-level variable, uses a `global` statement or a mutable default "
+    "argument -- except the plug-in registration decorators (import time) and one idempotent completion of the input schema by "
+    "constants; what remains is the machine object itself.  Repetition on one machine, other pipelines on other machines: "
+    "bounded stand-in.",
     trusted=["numba executes each prange iteration atomically w.r.t. its private arrays; numpy calls inside kernels are deterministic",
              "frame mode: results of numpy computations are unconstrained private values; reads/writes at indices computed from them "
              "are treated as touching any cell (no bounds obligation can be stated for them)"])
